@@ -166,7 +166,11 @@ def handleL2 (j : Json) : Except String Json := do
        ("c01", Json.bool (holdsC01e2e q segs o && holdsC01exact segs o)),
        ("c03", Json.bool ((!tokensGuards tt segs || holdsC03 segs o) && (!c03valsGuards C tt segs args || holdsC03vals C tt segs args o) && holdsC03present args o && inputsCounted && !lost.contains "C03" && !dupLost)),
        ("c02", Json.bool (literalsVerbatim segs o && callsVerbatim)),
-       ("c04", Json.bool (holdsC04rej m o && literalsVerbatim segs o && (!c04rowsGuards tt segs || holdsC04rows C tt segs args o) && !lost.contains "C04")),
+       -- (an insert accepted although a member of one of its rows cannot be read - it lies behind
+       -- a nil embedded pointer - cannot be row-faithful: the rejection is C08's, the rows C04's)
+       ("c04", Json.bool (!((match m.bind with | .error cls => cls == "nil-embedded-pointer" | .ok _ => false) &&
+            o.prepOk && o.bindOk && (kindProps segs).contains "C04") &&
+          holdsC04rej m o && literalsVerbatim segs o && (!c04rowsGuards tt segs || holdsC04rows C tt segs args o) && !lost.contains "C04")),
        -- (token predicates under `tokensGuards`: the witnesses of `Props/L2Tokens.lean` show they are
        -- false of the model without it; the mode half needs typed output nodes only)
        ("c05", Json.bool ((!tokensGuards tt segs || holdsC05 segs o) &&
